@@ -58,9 +58,11 @@ impl World {
 		let live = self.nodes[n].live.take();
 		drop(live);
 		{
+			let mut survivor: Option<([u8; 32], u64)> = None;
 			let mut d = self.nodes[n].disk.lock().unwrap();
 			if from_freeze {
 				if let Some(info) = d.frozen_info.take() {
+					survivor = info.survivor;
 					// nothing the process did after the crash instant happened
 					self.nodes[n].keys.restore_enforcement(&info.enforcement);
 					self.nodes[n].broadcaster.truncate(info.outbox_len);
@@ -71,6 +73,15 @@ impl World {
 			}
 			d.frozen = false;
 			d.crash_at = None;
+			if let Some((key, id)) = survivor {
+				if let Some(cd) = d.chans.get_mut(&key) {
+					if let Some(c) = cd.candidates.iter().find(|(cid, _)| *cid == id).cloned() {
+						if cd.durable.as_ref().map_or(true, |(did, _)| *did <= c.0) {
+							cd.durable = Some(c);
+						}
+					}
+				}
+			}
 			let mut i = 0;
 			let mut lost = 0u64;
 			let mut survived_inflight = 0u64;
